@@ -90,7 +90,12 @@ class PrecipitationStoppingCondition:
                 if n > 0:
                     currVal, currTime = self._poll(model, n), model.pData.time[n]
                     prevVal, prevTime = self._poll(model, n-1), model.pData.time[n-1]
-                    self._satisfiedTime = (currTime - prevTime) * (self._value - prevVal) / (currVal - prevVal) + prevTime
+                    prevMet = prevVal > self._value if self._condition == Inequality.GREATER_THAN else prevVal < self._value
+                    if prevMet:
+                        #Condition was already met on the previous row (ex. at the start of the run), nothing to interpolate
+                        self._satisfiedTime = prevTime
+                    else:
+                        self._satisfiedTime = (currTime - prevTime) * (self._value - prevVal) / (currVal - prevVal) + prevTime
                 else:
                     self._satisfiedTime = model.pData.time[n]
 
